@@ -131,10 +131,15 @@ def gen_cfg(rng: common.Rng, kind: str | None = None, inplace: str | None = None
     kind = kind or rng.pick(["none", "simple", "simple", "simple", "mem", "mem", "mem", "shm", "shm", "hdf", "hdf", "hdf"])
     tol = rng.pick(["0", "0", "0", "0", "1/1024", "1/8", "1/8", "1/8"])
     n_in = rng.pick([1, 1, 2, 2, 3])
+    # "default-rich" configurations: several inputs, every one with a default value (so that a call may
+    # leave all of them, some of them or none of them to the defaults)
+    rich = rng.chance(0.25)
+    if rich:
+        n_in = rng.pick([2, 2, 3])
     inputs = []
     for n in IN_NAMES[:n_in]:
         size = rng.pick([1, 1, 2])
-        dflt = [rat(rng.pick([0, 1, 2, -1, Fraction(1, 2)])) for _ in range(size)] if rng.chance(0.6) else None
+        dflt = [rat(rng.pick([0, 1, 2, -1, Fraction(1, 2)])) for _ in range(size)] if rich or rng.chance(0.6) else None
         inputs.append([n, size, dflt])
     outputs = [[n, rng.pick([1, 1, 2])] for n in OUT_NAMES[: rng.pick([1, 1, 2])]]
     if rng.chance(0.35):
@@ -224,7 +229,15 @@ def gen_cfg(rng: common.Rng, kind: str | None = None, inplace: str | None = None
         for i in inputs:
             if i[0] in wr or any(a[0] == i[0] for a in alias.values()):
                 i[2] = None
+    # the order in which the default values are defined (a mapping: the order has no meaning); half of the
+    # time another order than the one of the input names of the grammar
+    dorder = [i[0] for i in inputs if i[2] is not None]
+    if len(dorder) > 1 and rng.chance(0.6):
+        first = list(dorder)
+        while dorder == first:
+            dorder = rng.sample(first, len(first))
     return {
+        "dorder": dorder,
         "wr": wr,
         "alias": alias,
         "kind": kind,
@@ -319,7 +332,17 @@ def gen_ops(rng: common.Rng, cfg: dict[str, Any], n_ops: int, in_scope: bool = T
             # a call
             mode = rng.random()
             args: dict[str, int] = {}
-            if calls and mode < 0.3:
+            if any(has_default.values()) and mode < 0.12:
+                # the default values themselves, some of them passed explicitly (fresh arrays) and the others
+                # left to the defaults: one input, several forms of the call
+                for name, size in sizes.items():
+                    if has_default[name]:
+                        if rng.chance(0.5):
+                            args[name] = new_array(defaults[name])
+                    else:
+                        cands = [i for i in vals if fits(size_of[i], size) and i not in args.values()]
+                        args[name] = rng.pick(cands) if cands and rng.chance(0.7) else new_array(value(size))
+            elif calls and mode < 0.3:
                 args = dict(rng.pick(calls)[0])  # the same arrays as an earlier call
             elif calls and mode < 0.45 and (prev := rng.pick(calls)[1]) is not None:
                 # fresh arrays with the values an earlier call had (a body that updates its inputs in place:
@@ -352,7 +375,7 @@ def gen_ops(rng: common.Rng, cfg: dict[str, Any], n_ops: int, in_scope: bool = T
             can_linx = last_exec_vals is not None and call_vals is not None and call_vals == last_exec_vals
             # how the caller passes the data: a fresh dict, one dict object reused and updated in place
             # across the calls, extra keys that are not inputs
-            how = {"dict": rng.pick(["fresh", "fresh", "shared"]), "junk": rng.chance(0.15)}
+            how = gen_how(rng, args)
             if rng.chance(0.12):
                 ops.append(["peek", dict(args)])  # a direct look-up `cache[input_data]` before the call
             if u < 0.55:
@@ -426,6 +449,19 @@ def gen_ops(rng: common.Rng, cfg: dict[str, Any], n_ops: int, in_scope: bool = T
     return exec_only(ops[:n_ops]) if wr_k and in_scope else ops[:n_ops]
 
 
+def gen_how(rng: common.Rng, args: dict[str, int]) -> dict[str, Any]:
+    """How the caller passes the input data: a fresh dict, one dict object reused and updated in place
+    across the calls, extra keys that are not inputs, the order in which the keys are inserted (a
+    mapping: no meaning), nothing at all (`execute()`) or an empty dict when every input is defaulted."""
+    how: dict[str, Any] = {"dict": rng.pick(["fresh", "fresh", "shared"]), "junk": rng.chance(0.15)}
+    if len(args) > 1 and rng.chance(0.4):
+        keys = list(args)
+        how["keys"] = keys[::-1] if rng.chance(0.5) else rng.sample(keys, len(keys))
+    if not args:
+        how["empty"] = rng.pick(["none", "none", "dict"])
+    return how
+
+
 def exec_only(ops):
     """The in-scope histories of a body that writes into its input arrays call `execute` only (what
     `linearize` means for such a body is not defined by the property: see notes/C05.md)."""
@@ -461,20 +497,31 @@ def gen_scenario(rng: common.Rng, cfg: dict[str, Any]) -> list[list[Any]]:
             args[n] = new((over or {}).get(n, base[n]))
         return args
 
-    def call(args, how: str | None = None) -> None:
+    def call(args, how: str | None = None, form: dict[str, Any] | None = None) -> None:
         how = how or rng.pick(["exec", "exec", "lin-all", "lin-sub"])
+        tail = [form] if form is not None else []
         if how == "exec":
-            ops.append(["exec", dict(args)])
+            ops.append(["exec", dict(args), *tail])
         elif how == "lin-all":
-            ops.append(["lin", "all", 1, dict(args)])
+            ops.append(["lin", "all", 1, dict(args), *tail])
         else:
-            ops.append(["lin", "sub", 1, dict(args)])
+            ops.append(["lin", "sub", 1, dict(args), *tail])
 
     def unit(k: int, size: int, c: Fraction) -> list[Fraction]:
         return [c if j == k else Fraction(0) for j in range(size)]
 
     kind = rng.pick(["alias-in", "alias-in", "alias-out", "alias-out", "tol-chain", "tol-chain", "jac-first", "jac-entry", "jac-entry",
-                     "reopen", "many"])
+                     "reopen", "many", "jac-near", "jac-near", "forms"])
+    defaults = {i[0]: ([fr(t) for t in i[2]] if i[2] is not None else None) for i in cfg["inputs"]}
+    n_dflt = sum(has_default.values())
+    if n_dflt and rng.chance(0.15 + 0.15 * n_dflt):
+        kind = "forms"
+    if kind == "forms" and not n_dflt:
+        kind = "alias-in"
+    if tol > 0 and cfg["kind"] != "none" and rng.chance(0.2):
+        kind = "jac-near"
+    if kind == "jac-near" and tol == 0:
+        kind = "jac-first"
     if cfg.get("sym") and max(sizes.values()) > 1 and rng.chance(0.6):
         kind = "sizes"
     if is_inplace(cfg) and rng.chance(0.7):
@@ -554,6 +601,71 @@ def gen_scenario(rng: common.Rng, cfg: dict[str, Any]) -> list[list[Any]]:
         call(args, rng.pick(["lin-all", "lin-sub"]))
         if rng.chance(0.5):
             call(fresh_args(omit_defaults=False), "exec")
+    elif kind == "jac-near":
+        # the Jacobian is cached before any outputs at x0 (`linearize(execute=False)` on a cleared cache), then
+        # executions at x1 and x2, both within the tolerance of x0 but not of each other (and around)
+        fsize = sizes[focus]
+        x0 = [rng.pick([Fraction(0), Fraction(0), Fraction(1, 2), Fraction(-1, 2), Fraction(1)]) for _ in range(fsize)]
+        cands = []
+        for k1 in range(fsize):
+            for k2 in range(fsize):
+                for m1 in (1, -1, Fraction(1, 2), Fraction(3, 2), Fraction(-3, 2)):
+                    for m2 in (1, -1, Fraction(-1, 2), Fraction(3, 2), Fraction(-3, 2)):
+                        x1 = [c + e for c, e in zip(x0, unit(k1, fsize, m1 * tol))]
+                        x2 = [c + e for c, e in zip(x0, unit(k2, fsize, m2 * tol))]
+                        # strictly inside / strictly outside (no borderline case for the float norm)
+                        if (within([x1], [x0], tol * Fraction(7, 8)) and within([x2], [x0], tol * Fraction(7, 8))
+                                and not within([x2], [x1], tol * Fraction(9, 8))):
+                            cands.append((x1, x2))
+        if not any(x0):
+            # around 0 the radius is t itself: +-t on one component (dyadic: the float norms are exact)
+            cands = [(unit(k, fsize, s * tol), unit(k, fsize, -s * tol)) for k in range(fsize) for s in (1, -1)]
+        if not cands:
+            return gen_scenario_fallback(rng, cfg)
+        x1, x2 = rng.pick(cands)
+        a0 = fresh_args({focus: x0}, omit_defaults=False)
+        call(a0, "exec")
+        ops.append(["clear"])
+        ops.append(["lin", rng.pick(["all", "sub"]), 0, dict(a0) if rng.chance(0.6) else fresh_args({focus: x0}, omit_defaults=False)])
+        call(fresh_args({focus: x1}, omit_defaults=False), rng.pick(["exec", "exec", "exec", "lin-all"]))
+        for _ in range(rng.randint(1, 3)):
+            call(fresh_args({focus: rng.pick([x2, x2, x2, x1, x0])}, omit_defaults=False), rng.pick(["exec", "exec", "exec", "lin-all", "lin-sub"]))
+    elif kind == "forms":
+        # one input, several forms of the call: every input left to its default value (`execute()`, `execute({})`),
+        # some of them / all of them passed explicitly with the same values, the keys of the dict in any order;
+        # in between another input, a recycled array, a reopen of the file cache
+        other = {n: [c + rng.pick([Fraction(1), Fraction(-2), Fraction(1, 2)]) for c in base[n]] for n in names}
+
+        def form_args(x: dict[str, list[Fraction]], explicit: str) -> dict[str, int]:
+            args = {}
+            for n in names:
+                v = x.get(n, defaults[n] if has_default[n] else base[n])
+                if has_default[n] and v == defaults[n]:
+                    if explicit == "none" or (explicit == "some" and rng.chance(0.5)):
+                        continue
+                args[n] = new(v)
+            return args
+
+        def form_call(x, how: str | None = None) -> None:
+            args = form_args(x, rng.pick(["none", "none", "some", "some", "all"]))
+            call(args, how or rng.pick(["exec", "exec", "exec", "lin-all", "lin-sub"]), gen_how(rng, args))
+
+        form_call({})
+        for _ in range(rng.randint(2, 5)):
+            r = rng.random()
+            if r < 0.7:
+                form_call({})
+            elif r < 0.8:
+                form_call({focus: other[focus]})
+            elif r < 0.9 and cfg["kind"] == "hdf":
+                ops.append(["reopen"])
+            else:
+                # an explicit call with the default values, then the caller recycles one of its arrays
+                args = form_args({}, "all")
+                call(args, "exec", gen_how(rng, args))
+                ops.append(["mut", args[focus], [rat(c) for c in other[focus]]])
+                call(args, "exec", gen_how(rng, args))
+        form_call({})
     elif kind == "jac-entry":
         # an entry created by `cache_jacobian` itself (a linearization within the tolerance of an executed
         # input, or a linearization without execution after a clear), then the caller recycles the array
@@ -850,6 +962,7 @@ def make_disc(cfg, kind: str):
         "run_sets_jac": cfg["sj"],
         "wr": cfg.get("wr") or {},
         "alias": cfg.get("alias") or {},
+        "dorder": cfg.get("dorder") or [],
     }
     d = PolyDisc(spec)
     tol = float(fr(cfg["tol"]))
@@ -1018,7 +1131,8 @@ def run_history(cfg, ops, kind: str | None = None, values_of: Run | None = None)
                         if d.cache is None:
                             res = "P _ > _"
                         else:
-                            probe = {n: np.array([float(c) for c in v]) for n, v in zip(in_names, x)}
+                            # (the keys in another order than the input names: a mapping has no order)
+                            probe = {n: np.array([float(c) for c in v]) for n, v in list(zip(in_names, x))[::-1]}
                             e = d.cache[probe]
                             res = "P " + show_vals(out_names, e.outputs) + " > " + show_jac(jac_blocks(e.jacobian))
                         step["peek"] = res
@@ -1029,17 +1143,20 @@ def run_history(cfg, ops, kind: str | None = None, values_of: Run | None = None)
                         elif how["dict"] == "chain":
                             data = last_ret  # the returned data itself
                         else:
-                            data = {n: heap[i] for n, i in args.items()}
+                            data = {n: heap[args[n]] for n in [*how.get("keys", []), *args] if n in args}
                             if how["junk"]:
                                 data["zz_not_an_input"] = np.array([123.0])
                             if how["dict"] == "shared":
                                 shared.clear()
                                 shared.update(data)
                                 data = shared  # one dict object updated in place across the calls
+                        if values_of is None and not data and how.get("empty", "dict") == "none":
+                            data = None  # execute() / linearize(): every input left to its default value
+                        pos_args = () if data is None else (data,)
                         n_run0, n_jac0 = d.n_run, d.n_jac
                         if k == "exec":
                             line = f"exec h={tok} {argstr}".rstrip()
-                            r = d.execute(data)
+                            r = d.execute(*pos_args)
                             last_ret = r
                             last_exec_x = x
                             step["ret"] = {n: fvals(r[n]) for n in out_names}
@@ -1048,7 +1165,7 @@ def run_history(cfg, ops, kind: str | None = None, values_of: Run | None = None)
                             line = f"lin {op[1]} {op[2]} h={tok} {argstr}".rstrip()
                             if not op[2] and last_exec_x != x:
                                 run.linx_ok = False
-                            j = d.linearize(data, compute_all_jacobians=(op[1] == "all"), execute=bool(op[2]))
+                            j = d.linearize(*pos_args, compute_all_jacobians=(op[1] == "all"), execute=bool(op[2]))
                             if op[2]:
                                 last_exec_x = x
                             step["jac"] = jac_blocks(j)
@@ -1242,6 +1359,11 @@ def neighbours(rng, cfg, ops):
             yield {**cfg, "tol": tol}, ops
     for _ in range(40):
         yield cfg, gen_ops(rng, cfg, rng.randint(3, 16))
+    for _ in range(60):
+        yield cfg, gen_scenario(rng, cfg)
+    if fr(cfg["tol"]) == 0 and cfg["kind"] != "none":
+        for _ in range(40):
+            yield {**cfg, "tol": "1/8"}, gen_scenario(rng, {**cfg, "tol": "1/8"})
 
 
 _POOL = None
@@ -1376,6 +1498,30 @@ def account(res: Result, cfg, ops, run: Run, scope: bool) -> None:
             res.count("in-place:call-at-the-state-an-earlier-call-reached", reached)
             res.count("in-place:hit", sum(1 for st in ex if st.get("ran") == 0))
             res.count("in-place:miss", sum(1 for st in ex if st.get("ran") == 1))
+    dflt_names = [i[0] for i in cfg["inputs"] if i[2] is not None]
+    other_order = bool(cfg.get("dorder")) and list(cfg["dorder"]) != dflt_names
+    if other_order:
+        res.count("defaults-defined-in-another-order-than-the-input-names")
+    forms_of: dict[str, set] = {}
+    for st in run.steps:
+        op = st["op"]
+        if op[0] in ("exec", "lin") and "x" in st:
+            how = op_how(op)
+            args = op_args(op)
+            form = ("all-defaulted:" + ("execute()" if how.get("empty", "dict") == "none" else "{}" if not how["junk"] else "only-extra-keys")
+                    if not args else "fully-explicit" if len(args) == len(cfg["inputs"]) else "partially-defaulted")
+            res.count("call-form=" + form)
+            if "keys" in how and list(how["keys"]) != [n for n in (i[0] for i in cfg["inputs"]) if n in args]:
+                res.count("call-dict-keys-in-another-order-than-the-input-names")
+            seen_forms = forms_of.setdefault(json.dumps([rats(v) for v in st["x"]]), set())
+            shape = (tuple(sorted(args)), tuple(how.get("keys", [])))
+            if seen_forms and shape not in seen_forms and scope:
+                res.count("call-repeats-an-input-in-another-form")
+                if other_order and len(dflt_names) - sum(1 for n in dflt_names if n in args) >= 2 or (other_order and any(not f[0] for f in seen_forms)):
+                    res.count("call-repeats-an-input-in-another-form+defaults-in-another-order")
+            seen_forms.add(shape)
+    if scope and fr(cfg["tol"]) > 0 and cfg["kind"] != "none" and jac_before_outputs_pattern(cfg, run):
+        res.count("jacobian-cached-before-outputs-at-x0-then-x1-x2-within-t-of-x0-but-not-of-each-other")
     for op in ops:
         res.count("op=" + op[0] + (f"-{op[1]}-{'exe' if op[2] else 'noexe'}" if op[0] == "lin" else ""))
         if op[0] in ("exec", "lin"):
@@ -1394,6 +1540,28 @@ def account(res: Result, cfg, ops, run: Run, scope: bool) -> None:
     if n_calls >= 2 and cfg["kind"] != "none":
         res.nontrivial(json.dumps([cfg_line(cfg), run.lines[1:]]))
     res.sample({"cfg": cfg_line(cfg), "ops": run.lines[1:6], "impl": run.answers[1:6]})
+
+
+def jac_before_outputs_pattern(cfg, run: Run) -> bool:
+    """The history contains linearize(x0, execute=False) on a cache without entry for x0, then execute(x1), then
+    execute(x2) with x1, x2 within t of x0 and x2 not within t of x1 (histogram only)."""
+    t = fr(cfg["tol"])
+    st = run.steps
+    for i, a in enumerate(st):
+        if a["op"][0] != "lin" or a["op"][2] or "x" not in a or st[i - 1]["op"][0] != "clear":
+            continue
+        for j in range(i + 1, len(st)):
+            b = st[j]
+            if b["op"][0] == "clear":
+                break
+            if b["op"][0] != "exec" or "x" not in b or b["x"] == a["x"] or not within(b["x"], a["x"], t):
+                continue
+            for c in st[j + 1 :]:
+                if c["op"][0] == "clear":
+                    break
+                if c["op"][0] == "exec" and "x" in c and within(c["x"], a["x"], t) and not within(c["x"], b["x"], t):
+                    return True
+    return False
 
 
 def load_corpus() -> list[tuple[dict, list]]:
